@@ -166,7 +166,9 @@ def step (st : State) (m : Mon) (op res : List String) : Mon × Option (Option S
       match m.get h with
       | none => (m, none)
       | some o =>
-        if rv == 0x150 then (m, none)
+        if o.kind != opn then (m, none)               -- a call of another kind: answered CKR_OPERATION_NOT_INITIALIZED, the running operation is untouched (C12)
+        else if rv == 0x150 then (m, none)
+        else if rv != 0 && o.mech == 0x1086 then (m.drop h, none)      -- CTR: the token refuses input that would wrap a narrow counter; the reference has no such notion
         else if rv != 0 then (m.drop h, if opn == "dec" then (finish { o with inp := o.inp ++ hexArg mt } none).2 else none)
         else match outData res with
           | none => (m, none)                           -- length query
@@ -175,7 +177,8 @@ def step (st : State) (m : Mon) (op res : List String) : Mon × Option (Option S
       match m.get h with
       | none => (m, none)
       | some o =>
-        if rv == 0x150 then (m, none)
+        if o.kind ++ "upd" != opn then (m, none)
+        else if rv == 0x150 then (m, none)
         else if rv != 0 then (m.drop h, none)
         else match outData res with
           | none => (m, none)
@@ -184,7 +187,7 @@ def step (st : State) (m : Mon) (op res : List String) : Mon × Option (Option S
       -- verify h data sig
       match m.get h with
       | none => (m, none)
-      | some o => finish { o with inp := o.inp ++ hexArg mt } (some (hexArg (op.getD 3 ".")))
+      | some o => if o.kind != "verify" then (m, none) else finish { o with inp := o.inp ++ hexArg mt } (some (hexArg (op.getD 3 ".")))
     else (m, none)
   | [opn, _, a] =>
     if opn == "diginit" then
@@ -195,12 +198,16 @@ def step (st : State) (m : Mon) (op res : List String) : Mon × Option (Option S
     else if ["sigupd", "verupd", "digupd"].contains opn then
       match m.get h with
       | none => (m, none)
-      | some o => if rv == 0 then (m.set h { o with inp := o.inp ++ hexArg a }, none) else (m.drop h, none)
+      | some o =>
+        if (o.kind == "sign" && opn != "sigupd") || (o.kind == "verify" && opn != "verupd") || (o.kind == "digest" && opn != "digupd") || o.kind == "enc" || o.kind == "dec" then (m, none) else
+        if rv == 0 then (m.set h { o with inp := o.inp ++ hexArg a }, none) else (m.drop h, none)
     else if ["encfinal", "decfinal", "sigfinal", "digfinal"].contains opn then
       match m.get h with
       | none => (m, none)
       | some o =>
+        if (o.kind == "enc" && opn != "encfinal") || (o.kind == "dec" && opn != "decfinal") || (o.kind == "sign" && opn != "sigfinal") || (o.kind == "digest" && opn != "digfinal") || o.kind == "verify" then (m, none) else
         if rv == 0x150 then (m, none)
+        else if rv != 0 && o.mech == 0x1086 then (m.drop h, none)
         else if rv != 0 then (if opn == "decfinal" then finish o none else (m.drop h, none))
         else match outData res with
           | none => (m, none)
@@ -208,7 +215,7 @@ def step (st : State) (m : Mon) (op res : List String) : Mon × Option (Option S
     else if opn == "verfinal" then
       match m.get h with
       | none => (m, none)
-      | some o => finish o (some (hexArg a))
+      | some o => if o.kind != "verify" then (m, none) else finish o (some (hexArg a))
     else (m, none)
   | _ => (m, none)
 
